@@ -224,6 +224,22 @@ for _k, _c in EXTRA8.items():
     c0, n0, t0 = CLAIMS[_k]
     CLAIMS[_k] = (c0 + _c, n0, t0)
 
+EXTRA9 = {
+ "C02": "; DeleteAccount clears the coins on every success path; the IBC transfer wrapper rewrites the caller's own message; the staking balance helper returns the plain bank balance",
+ "C03": "; every GetSignBytes marshals its receiver; every dirty account's nonce is written back (C02 R3)",
+ "C07": "; the call value is dereferenced under a nil guard; the declared fee is owed at the price cap; the minimum-gas multiplier is the stored parameter; the transaction's gas total lives on the transaction's context",
+ "C08": "; period lists are written only from the merge/clawback arithmetic (C09 R18)",
+ "C09": "; period lists are written only from the merge/clawback arithmetic",
+ "C10": "; a failed step fails the conversion and a failed hook burn pays nothing",
+ "C11": "; a liquid token's record is deleted only when its remaining schedule is empty; a modified record copy is written back whole",
+ "C12": "; MultiSend refuses blocked outputs (C15 R11); the v1.8.0 migration moves all balances",
+ "C16": "; an unavailable precompile cannot be activated; bank figures pass through no arithmetic; C02 R11/R18 imported",
+ "C18": "; no getter hands out a stored big.Int; the admitting decorator checks the transaction's cost",
+}
+for _k, _c in EXTRA9.items():
+    c0, n0, t0 = CLAIMS[_k]
+    CLAIMS[_k] = (c0 + _c, n0, t0)
+
 BUILT = json.load(open('/verif/tools/built.json'))
 
 m = {"version": 1,
